@@ -182,6 +182,33 @@ def run(tier, rng, C):
         inv.classes[('c.yml',)] = content if where in ('class', 'both') else G.doc([], [], M(('a', I(1))))
         inv.nodes[('n.yml',)] = content if where in ('node', 'both') else G.doc(['c'], [], M(('b', S('${a}'))))
         add(inv, G.op_node('n') if i % 2 else 'all', nomodel=True, pre='b')
+    # (c2) file and directory names that are not valid UTF-8 (a raw byte 0xFF / 0xC3 in the name; the harness
+    # writes U+F8FF + two hex digits as that byte), with relative and absolute includes inside: discovery
+    # may reject them or not, rendering yields a value or an error; no model for these
+    for i in range(40 if tier == 'quick' else 1200):
+        inv = G.Inv()
+        bad = rng.choice(['b\uf8ffFFd', '\uf8ffC3', 'x\uf8ff80', 'ok'])
+        lossy = bad.replace('\uf8ffFF', '\ufffd').replace('\uf8ffC3', '\ufffd').replace('\uf8ff80', '\ufffd')
+        where = rng.choice(['dir', 'dir', 'file', 'nodefile', 'nodedir'])
+        rel = rng.choice(['.two', '..top', 'top', '.two'])
+        if where == 'dir':
+            inv.classes[(bad, 'one.yml')] = G.doc([rel], ['a'], M(('one', I(1))))
+            inv.classes[(bad, 'two.yml')] = G.doc([], [], M(('two', I(2))))
+            inc = [lossy + '.one']
+        elif where == 'file':
+            inv.classes[('d', bad + '.yml')] = G.doc([rel], [], M(('one', I(1))))
+            inv.classes[('d', 'two.yml')] = G.doc([], [], M(('two', I(2))))
+            inc = ['d.' + lossy]
+        else:
+            inc = ['top']
+        inv.classes[('top.yml',)] = G.doc([], [], M(('t', I(0))))
+        if where == 'nodefile':
+            inv.nodes[(bad + '.yml',)] = G.doc(['top'], [], M())
+        elif where == 'nodedir':
+            inv.nodes[(bad, 'm.yml')] = G.doc(['.top', 'top'], [], M())
+        inv.compose = rng.random() < 0.5
+        inv.nodes[('n.yml',)] = G.doc(inc, [], M(('q', I(1))))
+        add(inv, rng.choice([G.op_node('n'), 'all', G.op_node(lossy), G.op_node('m')]), nomodel=True, pre='u')
     # (d) deep but finite input: nested references, nested containers, long include chains
     depths = [10, 64, 65, 100, 127, 128, 129, 130, 131, 1000, 20000]
     for d in depths:
@@ -250,7 +277,7 @@ def run(tier, rng, C):
     rule = ('inventories run in the harness with panic capture and process-death attribution: %d AST-level fuzz inventories (tags, '
             'one key spelled twice through markers, container keys, malformed reference text, wrong shapes of classes / '
             'applications / parameters / document), %d structured inventories incl. cyclic include graphs, as many layered parameter trees with references consumed by member lookups through whatever the layers hold, %d byte-level files '
-            '(invalid YAML, anchors/aliases/billion-laughs, merge keys, tags, BOM, non-UTF-8, random bytes), deep-but-finite inputs '
+            '(invalid YAML, anchors/aliases/billion-laughs, merge keys, tags, BOM, non-UTF-8, random bytes), file and directory names that are not valid UTF-8 with relative includes inside, deep-but-finite inputs '
             '(reference nesting 10..20000, YAML nesting 10..2000, include chains 10..3000) and file-system faults between '
             'construction and rendering (delete, replace by directory, garbage, truncate); oracle: outcome is a value or an error; '
             'non-trivial = all' % (n, n // 3, nb))
